@@ -2,6 +2,7 @@ import YarlProofs.C03
 import YarlProofs.C03Reach
 import YarlProofs.C03Netloc
 import YarlProofs.C03Idn
+import YarlProofs.C03Bracket
 /-!
   C03Headline.lean — AUDIT LAYER for property C03.
 
@@ -30,10 +31,13 @@ import YarlProofs.C03Idn
   `SchemeOK' sc` — "RFC-valid scheme": empty, or non-empty lower-case `Gen.schemeChars` (a leading digit is allowed,
                    as in `split_url`).
   `C03Guards u`  — the two recorded exclusions F-C03-colon and F-C03-rootless.
+  `BracketTextIn`, `BracketText`, `HostFixB`, `authTextB`, `NetlocCanonB`, `AuthInputB`, `UOp.NetArgsB`
+                   (Lemmas/BrHost.lean, C03Bracket.lean) — the same vocabulary for bracketed hosts that are NOT IPv6
+                   addresses (IPvFuture "[v1.a:b]", "[g::1]", "[a:b]"), see the section "bracketed hosts …" below.
 -/
 set_option linter.unusedVariables false
 namespace Yarl
-open ReachFix FixLemmas NetShape NetlocLemmas HostLemmas HumanLemmas
+open ReachFix FixLemmas NetShape NetlocLemmas HostLemmas HumanLemmas BrHost
 
 /-! ## Sentence 1a — "For every URL the library produces from valid input (RFC-valid scheme, syntactically valid
     host), parsing str(url) again yields a URL with an identical string form" -/
@@ -253,7 +257,8 @@ theorem C03_headline_valid_host_text_spec (h : Str) :
 /-- the host kinds of GAPS 2 on the INPUT side (`nameChar` = visible ASCII, none of `/ ? # @ [ ] :`;
     `textChar` = the same with ':' allowed): reg-name in any case (incl. ending in a digit: "h1", "example.com1",
     "1.2.3.4.5"), trailing dot, IPv4 literal, IPv6 literal in any accepted spelling, IPv6 literal with zone id.
-    NOT covered: IPvFuture / other bracketed non-IPv6 text (GAPS 2), non-ASCII hosts (section "IDN hosts"). -/
+    NOT covered HERE: IPvFuture / other bracketed non-IPv6 text (section "bracketed hosts that are NOT IPv6
+    addresses" below), non-ASCII hosts (section "IDN hosts"). -/
 theorem C03_headline_valid_host_kinds :
     (∀ h : Str, h ≠ [] → (∀ c ∈ h, nameChar c = true) → HostTextOK h) ∧
     (∀ h : Str, (∀ c ∈ h, nameChar c = true) → HostTextOK (h ++ [46])) ∧
@@ -416,6 +421,301 @@ theorem C03_headline_valid_host_fails_for_bracket_in_host :
       encodeUrl e "http://%5Ba:b@h]/".toStr = .error .valueError :=
   C03_bracket_in_host_counterexample
 
+/-! ### bracketed hosts that are NOT IPv6 addresses — IPvFuture "[v1.a:b]", text with ':' such as "[g::1]", "[a:b]",
+    "[1.2.3.4%a:b]" (closes GAPS 2, last open part; theorems of C03Bracket.lean + Lemmas/BrHost.lean)
+
+  Since fix c17f18a the constructor (and `build(authority=)`) keeps the brackets of such a host.  `HostFix` /
+  `HostTextOK` / `AuthInput` do not cover them; the parallel vocabulary is:
+  `bracketCheck t`   — the check `split_url` applies to the text between '[' and ']': a text starting with a
+                       LOWER-CASE 'v' must match `v<hex>+.<char>+` (`ipvFutureOk`), any other text must contain ':';
+  `BracketTextIn t`  — INPUT side, any letter case (spelled out in C03_headline_bracketed_host_text_spec);
+  `BracketText t`    — STORED side: `BracketTextIn t` and no upper-case letter;
+  `HostFixB o t`     — abstract form (counterpart of `HostFix`): `HostOK t`, authority characters, `bracketCheck t`,
+                       and `_encode_host(t) = t` (WITHOUT brackets: `encode_url` puts them back);
+  `authTextB user pw t port` — the text `[user[:password]@][t][:port]`, host ALWAYS in brackets (`authText` brackets
+                       a host only when it contains ':');
+  `hostPortSubB scheme t port` — `host_port_subcomponent`: trailing dots stripped, brackets only around a text with
+                       ':', the port unless absent or default;
+  `NetlocCanonB e u` — "syntactically valid host", STORED side, extended: `NetlocCanon e u`, or the stored authority is
+                       an `authTextB` with `UserInfoOK`, `HostFixB`, port ≤ 65535 and a consistent cache;
+  `AuthInputB o n`   — "syntactically valid host", INPUT side, extended (spelled out in
+                       C03_headline_bracketed_auth_input_spec);
+  `UOp.NetArgsB e`   — `UOp.NetArgs e` where a `join` reference may be `NetlocCanonB`. -/
+
+/-- `BracketTextIn T` / `BracketText t`, written out: visible ASCII with none of `/ ? # @ [ ]` (`textChar`; ':' and
+    '%' ARE allowed); the bracket check of `split_url` passes; the text before an optional `%zone` is no IPv6 literal
+    (that is what separates this family from the IPv6 one: C03_headline_bracketed_conditions_needed); STORED side:
+    additionally no upper-case letter.  `bracketCheck` by definition. -/
+theorem C03_headline_bracketed_host_text_spec (t : Str) :
+    (BracketTextIn t ↔
+      (∀ c ∈ t, textChar c = true) ∧ bracketCheck t = true ∧
+      ∀ h8, parseIP (partition 37 t).1 ≠ some (.v6 h8)) ∧
+    (BracketText t ↔ BracketTextIn t ∧ ∀ c ∈ t, ¬ (65 ≤ c ∧ c ≤ 90)) ∧
+    bracketCheck t = (if t.take 1 = [118] then ipvFutureOk t else mem 58 t) :=
+  ⟨⟨fun h => ⟨h.chars, h.check, h.notV6⟩, fun h => ⟨h.1, h.2.1, h.2.2⟩⟩,
+   ⟨fun h => ⟨h.toBracketTextIn, h.lower⟩, fun h => ⟨h.1, h.2⟩⟩, rfl⟩
+
+/-- the two families of stored texts, and the link to the abstract form: an IPvFuture text `v<hex>+.<char>+` (never
+    an IP literal, so the clause "no IPv6 literal" is automatic for it), and a text with ':' that does not start with
+    'v' and is no IPv6 literal, both lower-case `textChar` text, satisfy `BracketText`; and `BracketText t` gives
+    `HostFixB o t` for EVERY oracle (the oracles are never consulted: the text is ASCII).
+    Cites C03_bracket_families, C03_bracket_hostFixB. -/
+theorem C03_headline_bracketed_host_families (o : Oracles) :
+    (∀ r : Str, parseIP (partition 37 (118 :: r)).1 = none) ∧
+    (∀ t : Str, (∀ c ∈ t, textChar c = true) → (∀ c ∈ t, ¬ (65 ≤ c ∧ c ≤ 90)) → ipvFutureOk t = true →
+      BracketText t) ∧
+    (∀ t : Str, (∀ c ∈ t, textChar c = true) → (∀ c ∈ t, ¬ (65 ≤ c ∧ c ≤ 90)) → 58 ∈ t → t.head? ≠ some 118 →
+      (∀ h8, parseIP (partition 37 t).1 ≠ some (.v6 h8)) → BracketText t) ∧
+    (∀ t : Str, BracketText t → HostFixB o t) :=
+  ⟨C03_bracket_families.1, C03_bracket_families.2.1, C03_bracket_families.2.2, fun _ h => C03_bracket_hostFixB o h⟩
+
+/-- "parsing str(url) again yields a URL with an identical string form and identical scheme, user, password, host,
+    port, path, query and fragment" for the string `s = scheme://[user[:password]@][t][:port]path[?query][#fragment]`
+    (or `//[…` without a scheme; `canonText` = the string with these five components) around a bracketed non-IPv6
+    text `t`, NO default port written: the constructor stores the authority WITH the brackets and exactly the five
+    components; `raw_host = t`, `explicit_port`, `raw_user`, `raw_password` are as written; `host_subcomponent` is `[t]`
+    when ':' ∈ t but the BARE `t` when not (`bracket t`); `host_port_subcomponent` is `hostPortSubB`; `str` prints `s`;
+    parsing `s` again gives the SAME URL (record equality, cache included).  Cites C03_bracket_fixed_point. -/
+theorem C03_headline_bracketed_host_fixed_point (e : Env) (scheme : Str) (user pw : Option Str) (t : Str)
+    (port : Option Nat) (path query fragment : Str)
+    (hs : SchemeOK' scheme)                       -- "RFC-valid scheme": empty, or non-empty lower-case scheme characters
+    (hu : UserInfoOK e.b user pw)                 -- ANY canonical userinfo
+    (hh : HostFixB e.o t)                         -- "syntactically valid host": `BracketText t` suffices (families above)
+    (hp : PortOK scheme port)                     -- ANY port ≤ 65535 that is not the scheme default
+                                                  -- (default port: C03_headline_bracketed_host_default_port)
+    (hc : CompOK e.b path query fragment) :       -- ANY canonical path / query / fragment
+    ∃ u, encodeUrl e (canonText scheme (authTextB user pw t port) path query fragment) = .ok u ∧
+      u.scheme = scheme ∧ u.netloc = authTextB user pw t port ∧ u.path = path ∧ u.query = query ∧
+      u.fragment = fragment ∧
+      rawHost e u = .ok (some t) ∧ explicitPort e u = .ok port ∧ rawUser e u = .ok user ∧
+      rawPassword e u = .ok pw ∧ hostSubcomponent e u = .ok (some (bracket t)) ∧
+      hostPortSubcomponent e u = .ok (some (hostPortSubB scheme t port)) ∧
+      str e u = .ok (canonText scheme (authTextB user pw t port) path query fragment) ∧
+      (str e u >>= encodeUrl e) = .ok u :=
+  C03_bracket_fixed_point e scheme user pw t port path query fragment hs hu hh hp hc
+
+/-- "a second pass of … default-port dropping … changes nothing" for such a host — with a DEVIATION the module
+    reports: `URL('https://[v1.a]:443/')` still stores "[v1.a]:443", but `str` rebuilds the authority from
+    `host_subcomponent` and prints `[user[:password]@]` + `bracket t` — WITHOUT brackets when `t` has no ':'
+    ("https://v1.a/": `[v1.a]:443` LOSES ITS BRACKETS when the default port is dropped), with them otherwise
+    ("https://[v1.a:b]/").  The printed string IS a fixed point of parsing; `raw_host`, user, password and the
+    effective `port` are preserved; the re-parsed URL has no explicit port, a different netloc, and is not `==` (as for
+    every explicit default port: C03_headline_identical_netloc_fails_for_default_port).  Without ':' the re-parsed URL
+    has an ordinary reg-name host (`NetlocCanon`, no bracket in the netloc): the IPvFuture literal silently became a
+    reg-name.  (Not in KNOWN_FINDINGS; same root as GAPS 3.)  Cites C03_bracket_default_port. -/
+theorem C03_headline_bracketed_host_default_port (e : Env) (scheme : Str) (user pw : Option Str) (t : Str) (p : Nat)
+    (path query fragment : Str)
+    (hs : SchemeOK' scheme) (hu : UserInfoOK e.b user pw) (hh : HostFixB e.o t)   -- as above
+    (hd : some p = defaultPort scheme)            -- the explicit port IS the scheme default
+    (hc : CompOK e.b path query fragment) :       -- as above
+    ∃ u u', encodeUrl e (canonText scheme (authTextB user pw t (some p)) path query fragment) = .ok u ∧
+      u.netloc = authTextB user pw t (some p) ∧
+      str e u = .ok (canonText scheme (authText user pw t none) path query fragment) ∧
+      encodeUrl e (canonText scheme (authText user pw t none) path query fragment) = .ok u' ∧
+      str e u' = .ok (canonText scheme (authText user pw t none) path query fragment) ∧
+      u'.scheme = scheme ∧ u'.netloc = authText user pw t none ∧ u'.path = path ∧ u'.query = query ∧
+      u'.fragment = fragment ∧
+      (58 ∈ t → u'.netloc = authTextB user pw t none) ∧
+      (58 ∉ t → 91 ∉ u'.netloc ∧ NetlocCanon e u') ∧ NetlocCanonB e u' ∧
+      rawHost e u = .ok (some t) ∧ rawHost e u' = .ok (some t) ∧
+      explicitPort e u = .ok (some p) ∧ explicitPort e u' = .ok none ∧
+      port e u = .ok (some p) ∧ port e u' = .ok (some p) ∧
+      rawUser e u' = rawUser e u ∧ rawPassword e u' = rawPassword e u ∧
+      u'.netloc ≠ u.netloc ∧ Url.beq u' u = false :=
+  C03_bracket_default_port e scheme user pw t p path query fragment hs hu hh hd hc
+
+/-- the two cases computed: 'https://[v1.a]:443/' prints "https://v1.a/" (brackets lost, `raw_host` kept, re-parsed
+    netloc "v1.a"); 'https://[v1.a:b]:443/' prints "https://[v1.a:b]/" (':' inside: brackets kept).  `C04_roundTrip`
+    = str(URL(s)).  (Evaluated; the general statement is the previous theorem.) -/
+theorem C03_headline_bracketed_host_default_port_examples (b : Backend) :
+    C04_roundTrip ⟨b, Oracles.empty⟩ "https://[v1.a]:443/".toStr = .ok "https://v1.a/".toStr ∧
+    C04_roundTrip ⟨b, Oracles.empty⟩ "https://v1.a/".toStr = .ok "https://v1.a/".toStr ∧
+    C04_roundTrip ⟨b, Oracles.empty⟩ "https://[v1.a:b]:443/".toStr = .ok "https://[v1.a:b]/".toStr ∧
+    C04_roundTrip ⟨b, Oracles.empty⟩ "https://[v1.a:b]/".toStr = .ok "https://[v1.a:b]/".toStr := by
+  cases b <;> decide +kernel
+
+/-- "For every URL the library produces from valid input (RFC-valid scheme, syntactically valid host), parsing
+    str(url) again yields a URL with an identical string form and identical scheme, user, password, host, port, path,
+    query and fragment" with `NetlocCanonB` as the "syntactically valid host" clause: C03_headline_identical_string_form,
+    C03_headline_identical_components and C03_headline_equal_iff_no_default_port hold verbatim for the bracketed
+    non-IPv6 hosts as well.  `URL(str(u)) == u` again holds exactly when no explicit default port is stored
+    (`NoDefaultPort e u`, C03Netloc.lean, is literally `∀ p, explicitPort e u = .ok (some p) → some p ≠ defaultPort
+    u.scheme`).  Cites C03_fixed_point_of_canonB, C03_bracket_identical_components. -/
+theorem C03_headline_fixed_point_valid_or_bracketed_host (e : Env) (u : Url)
+    (hreach : ReachC e u)             -- join references canonical: C03_joinRef_wf_not_enough
+    (hnet : NetlocCanonB e u)         -- valid host, bracketed non-IPv6 hosts included; derived from the INPUT in
+                                      -- C03_headline_bracketed_constructor_fixed_point / _build_fixed_point
+    (hscheme : SchemeOK' u.scheme)    -- "RFC-valid scheme" of the property text
+    (hguards : C03Guards u) :         -- F-C03-colon, F-C03-rootless (vacuous under an authority)
+    (∃ s u', str e u = .ok s ∧ encodeUrl e s = .ok u' ∧ str e u' = .ok s ∧ u'.scheme = u.scheme ∧
+      u'.path = C07_strPath u ∧ u'.query = u.query ∧ u'.fragment = u.fragment ∧
+      (u'.netloc = u.netloc ↔ ∀ p, explicitPort e u = .ok (some p) → some p ≠ defaultPort u.scheme) ∧
+      (eqKey u' = eqKey u ↔ ∀ p, explicitPort e u = .ok (some p) → some p ≠ defaultPort u.scheme) ∧
+      (Url.beq u' u = true ↔ ∀ p, explicitPort e u = .ok (some p) → some p ≠ defaultPort u.scheme) ∧
+      port e u' = port e u ∧ rawHost e u' = rawHost e u ∧ rawUser e u' = rawUser e u ∧
+      rawPassword e u' = rawPassword e u ∧ CanonUrl e.b u' ∧ NetlocCanonB e u') ∧
+    (∃ s u', str e u = .ok s ∧ encodeUrl e s = .ok u' ∧ str e u' = .ok s ∧ u'.scheme = u.scheme ∧
+      rawUser e u' = rawUser e u ∧ user e u' = user e u ∧
+      rawPassword e u' = rawPassword e u ∧ password e u' = password e u ∧
+      rawHost e u' = rawHost e u ∧ host e u' = host e u ∧ port e u' = port e u ∧
+      u'.path = C07_strPath u ∧ u'.query = u.query ∧ u'.fragment = u.fragment) :=
+  ⟨C03_fixed_point_of_canonB e u (C03_reachable_canon e u hreach) hnet hscheme hguards,
+   C03_bracket_identical_components e u (C03_reachable_canon e u hreach) hnet hscheme hguards⟩
+
+/-- `NetlocCanonB` and `AuthInputB`, written out (inductive / definition of C03Bracket.lean).  `AuthInputB o n`:
+    `AuthInput o n` (C03_headline_valid_host_constructor), or `split_netloc` accepts the authority, the host part was
+    written in brackets, and the text `T` between them is a bracketed non-IPv6 text IN ANY LETTER CASE whose lower-cased
+    form still passes the bracket check (automatic unless `T` starts with an upper-case 'V': second conjunct; needed:
+    C03_headline_bracketed_fails_for_upper_case_v). -/
+theorem C03_headline_bracketed_auth_input_spec (e : Env) (u : Url) (o : Oracles) (n : Str) :
+    (NetlocCanonB e u ↔ NetlocCanon e u ∨ ∃ user pw t port, u.netloc = authTextB user pw t port ∧
+      UserInfoOK e.b user pw ∧ HostFixB e.o t ∧ (∀ p, port = some p → p ≤ 65535) ∧
+      (u.pre = none ∨ u.pre = some (preOf user pw t port))) ∧
+    (AuthInputB o n ↔ AuthInput o n ∨ ∃ np T, splitNetloc o n = .ok np ∧ np.host = some T ∧
+      91 ∈ (rpartition 64 n).2.2 ∧ BracketTextIn T ∧ bracketCheck (lower T) = true) ∧
+    (∀ T : Str, T.head? ≠ some 86 → bracketCheck T = true → bracketCheck (lower T) = true) := by
+  refine ⟨⟨fun h => ?_, fun h => ?_⟩, Iff.rfl, fun T hV h => C03_bracket_check_lower hV h⟩
+  · cases h with
+    | plain h => exact Or.inl h
+    | brk user pw t port h1 h2 h3 h4 h5 => exact Or.inr ⟨user, pw, t, port, h1, h2, h3, h4, h5⟩
+  · rcases h with h | ⟨user, pw, t, port, h1, h2, h3, h4, h5⟩
+    · exact .plain h
+    · exact .brk user pw t port h1 h2 h3 h4 h5
+
+/-- "For every URL the library produces [with the constructor] from valid input …", hypotheses on the INPUT TEXT only
+    (extends C03_headline_constructor_fixed_point to `AuthInputB`): the constructor on a Python string whose authority
+    names a supported ASCII host OR a bracketed non-IPv6 text in any letter case stores a valid authority
+    (`NetlocCanonB`; for the bracketed case `[user[:pw]@][t][:port]` with `t` the lower-cased `T`, or `T` itself for an
+    IPv4 literal with a zone id containing ':'), and `str` of the result is a fixed point of parsing, with `==` exactly
+    when no explicit default port is stored.
+    Cites C03_bracket_encodeUrl_netlocCanonB, C03_bracket_encodeUrl_shape, C03_bracket_constructor_fixed_point. -/
+theorem C03_headline_bracketed_constructor_fixed_point (e : Env) (s : Str) (u : Url) (pt : Parts)
+    (hs : PyStr s) (hu : encodeUrl e s = .ok u) (hpt : splitUrl e.o s = .ok pt) -- as in …_valid_host_constructor
+    (ha : AuthInputB e.o pt.netloc)           -- written out in C03_headline_bracketed_auth_input_spec
+    (hg : C03Guards u) :                      -- F-C03-colon, F-C03-rootless (vacuous under an authority)
+    NetlocCanonB e u ∧
+    (∀ np T, splitNetloc e.o pt.netloc = .ok np → np.host = some T → 91 ∈ (rpartition 64 pt.netloc).2.2 →
+      BracketTextIn T → bracketCheck (lower T) = true →
+      ∃ user pw t, u.netloc = authTextB user pw t np.port ∧ UserInfoOK e.b user pw ∧ HostFixB e.o t ∧
+        (t = lower T ∨ t = T) ∧ u.pre = some (preOf user pw t np.port) ∧ (∀ p, np.port = some p → p ≤ 65535)) ∧
+    ∃ t u', str e u = .ok t ∧ encodeUrl e t = .ok u' ∧ str e u' = .ok t ∧ u'.scheme = u.scheme ∧
+      u'.path = C07_strPath u ∧ u'.query = u.query ∧ u'.fragment = u.fragment ∧
+      (u'.netloc = u.netloc ↔ ∀ p, explicitPort e u = .ok (some p) → some p ≠ defaultPort u.scheme) ∧
+      (eqKey u' = eqKey u ↔ ∀ p, explicitPort e u = .ok (some p) → some p ≠ defaultPort u.scheme) ∧
+      (Url.beq u' u = true ↔ ∀ p, explicitPort e u = .ok (some p) → some p ≠ defaultPort u.scheme) ∧
+      port e u' = port e u ∧ rawHost e u' = rawHost e u ∧ rawUser e u' = rawUser e u ∧
+      rawPassword e u' = rawPassword e u ∧ CanonUrl e.b u' ∧ NetlocCanonB e u' :=
+  ⟨C03_bracket_encodeUrl_netlocCanonB e s u pt hs hu hpt ha,
+   fun np T hsp hhost hwrap hk hlow => C03_bracket_encodeUrl_shape e s u pt np T hs hu hpt hsp hhost hwrap hk hlow,
+   C03_bracket_constructor_fixed_point e s u pt hs hu hpt ha hg⟩
+
+/-- … [with `build(encoded=False, authority=…)`] on an authority naming a bracketed non-IPv6 host (`build(host=…)`
+    validates its argument and never yields such a host): a valid stored authority, the scheme lowered, no default
+    port stored, and the fixed point with `URL(str(u)) == u` unconditionally.
+    Cites C03_bracket_build_netlocCanonB, C03_bracket_build_fixed_point. -/
+theorem C03_headline_bracketed_build_fixed_point (e : Env) (a : BuildArgs) (u : Url) (np : NetlocParts) (T : Str)
+    (henc : a.encoded = false)                -- the auto-encoding entry point (encoded=True: GAPS 6)
+    (hpy : BuildArgsPy a) (hapy : PyStr a.authority)   -- "valid input": Python strings
+    (hsp : splitNetloc e.o a.authority = .ok np) (hhost : np.host = some T)  -- names the host text `T` of `authority=`
+    (hwrap : 91 ∈ (rpartition 64 a.authority).2.2)     -- it was written in brackets
+    (hk : BracketTextIn T)                    -- a bracketed non-IPv6 text, any letter case
+    (hlow : bracketCheck (lower T) = true)    -- needed: C03_headline_bracketed_fails_for_upper_case_v
+    (hsch : SchemeChars a.scheme)             -- "RFC-valid scheme", any letter case
+    (hb : build e a = .ok u)
+    (hg : C03Guards u) :                      -- F-C03-colon, F-C03-rootless
+    (NetlocCanonB e u ∧ (∀ p, explicitPort e u = .ok (some p) → some p ≠ defaultPort u.scheme) ∧
+      lowerAny e a.scheme = .ok u.scheme) ∧
+    ∃ t u', str e u = .ok t ∧ encodeUrl e t = .ok u' ∧ str e u' = .ok t ∧ u'.scheme = u.scheme ∧
+      u'.path = C07_strPath u ∧ u'.query = u.query ∧ u'.fragment = u.fragment ∧
+      u'.netloc = u.netloc ∧ eqKey u' = eqKey u ∧ Url.beq u' u = true ∧
+      port e u' = port e u ∧ rawHost e u' = rawHost e u ∧ rawUser e u' = rawUser e u ∧
+      rawPassword e u' = rawPassword e u ∧ CanonUrl e.b u' ∧ NetlocCanonB e u' ∧ u.scheme = lower a.scheme :=
+  ⟨C03_bracket_build_netlocCanonB e a u np T henc hapy hsp hhost hwrap hk hlow hb,
+   C03_bracket_build_fixed_point e a u np T henc hpy hapy hsp hhost hwrap hk hlow hsch hb hg⟩
+
+/-- END TO END with input-side hypotheses only (extends C03_headline_op_sequence_from_valid_input): the constructor on
+    a Python string whose authority satisfies `AuthInputB`, followed by ANY finite sequence of the 19 operations; every
+    operation keeps `NetlocCanonB`.  Cites C03_applyOp_netlocCanonB, C03_bracket_op_sequence_fixed_point. -/
+theorem C03_headline_bracketed_op_sequence (e : Env) (s : Str) (pt : Parts) (ops : List UOp) (u v : Url)
+    (hs : PyStr s) (hu : encodeUrl e s = .ok u) (hpt : splitUrl e.o s = .ok pt)
+    (ha : AuthInputB e.o pt.netloc)           -- written out in C03_headline_bracketed_auth_input_spec
+    (hops : ∀ op ∈ ops, op.ArgsCanon e.b ∧ op.NetArgsB e) -- arguments Python strings / join references canonical with
+                                              -- `NetlocCanonB`; with_host: automatic for ASCII (…_valid_host_with_host)
+    (hv : applyOps e u ops = .ok v)
+    (hsch : SchemeOK' v.scheme)               -- "RFC-valid scheme"
+    (hg : C03Guards v) :                      -- F-C03-colon, F-C03-rootless
+    (∀ (w : Url) (op : UOp) (w' : Url), NetlocCanonB e w → op.ArgsPy e.b → op.NetArgsB e →
+      applyOp e w op = .ok w' → NetlocCanonB e w') ∧
+    ∃ t v', str e v = .ok t ∧ encodeUrl e t = .ok v' ∧ str e v' = .ok t ∧ v'.scheme = v.scheme ∧
+      v'.path = C07_strPath v ∧ v'.query = v.query ∧ v'.fragment = v.fragment ∧
+      (v'.netloc = v.netloc ↔ ∀ p, explicitPort e v = .ok (some p) → some p ≠ defaultPort v.scheme) ∧
+      (eqKey v' = eqKey v ↔ ∀ p, explicitPort e v = .ok (some p) → some p ≠ defaultPort v.scheme) ∧
+      (Url.beq v' v = true ↔ ∀ p, explicitPort e v = .ok (some p) → some p ≠ defaultPort v.scheme) ∧
+      port e v' = port e v ∧ rawHost e v' = rawHost e v ∧ rawUser e v' = rawUser e v ∧
+      rawPassword e v' = rawPassword e v ∧ CanonUrl e.b v' ∧ NetlocCanonB e v' :=
+  ⟨fun w op w' hn ha hx h => C03_applyOp_netlocCanonB e w hn op ha hx w' h,
+   C03_bracket_op_sequence_fixed_point e s pt ops u v hs hu hpt ha hops hv hsch hg⟩
+
+/-- what the authority-writing modifiers do to a bracketed host (reported by the module, same mechanism as the
+    default-port case): `with_port`, `with_user` (likewise `with_password`, and `origin()` when a userinfo is present)
+    rebuild the authority from `host_subcomponent`.  WITHOUT a ':' the brackets are dropped —
+    URL('http://[v1.a]/p').with_port(81) is 'http://v1.a:81/p' — with a ':' they are kept.  Both results are valid
+    stored authorities (previous theorem), `raw_host` is kept.  Cites C03_bracket_modifiers_drop_brackets. -/
+theorem C03_headline_bracketed_modifiers_drop_brackets :
+    let e : Env := ⟨.py, Oracles.empty⟩
+    (encodeUrl e "http://[v1.a]/p".toStr >>= fun u => applyOp e u (.withPort (some 81) 0)).map (·.netloc)
+      = .ok "v1.a:81".toStr ∧
+    (encodeUrl e "http://[v1.a]/p".toStr >>= fun u => applyOp e u (.withUser (some "x".toStr))).map (·.netloc)
+      = .ok "x@v1.a".toStr ∧
+    (encodeUrl e "http://[v1.a:b]/p".toStr >>= fun u => applyOp e u (.withPort (some 81) 0)).map (·.netloc)
+      = .ok "[v1.a:b]:81".toStr ∧
+    (encodeUrl e "http://[v1.a:b]/p".toStr >>= fun u => applyOp e u (.withUser (some "x".toStr))).map (·.netloc)
+      = .ok "x@[v1.a:b]".toStr :=
+  C03_bracket_modifiers_drop_brackets
+
+/-- `bracketCheck (lower T)` in `AuthInputB` is needed — a FURTHER MEMBER of F-C03-bracket: the IPvFuture test of
+    `split_url` looks for a LOWER-CASE 'v' only, but the host is lower-cased afterwards.  URL('http://[V:b]/') is
+    accepted (the text has a ':'), stores "[v:b]", prints "http://[v:b]/" — and that string is REJECTED when read again
+    ("IPvFuture address is invalid").  Python: `URL(str(URL('http://[V:b]/')))` raises ValueError; also '[V1:a]',
+    '[Vx.a:b]'.  Cites C03_bracket_upper_v_counterexample. -/
+theorem C03_headline_bracketed_fails_for_upper_case_v :
+    let e : Env := ⟨.py, Oracles.empty⟩
+    ∃ u, encodeUrl e "http://[V:b]/".toStr = .ok u ∧ u.netloc = "[v:b]".toStr ∧
+      str e u = .ok "http://[v:b]/".toStr ∧ encodeUrl e "http://[v:b]/".toStr = .error .valueError ∧
+      BracketTextIn "V:b".toStr ∧ bracketCheck (lower "V:b".toStr) = false :=
+  C03_bracket_upper_v_counterexample
+
+/-- which clauses of `BracketText` are needed.  LOWER CASE is needed for the identity `str(URL(s)) = s`, NOT for the
+    fixed point: URL('http://[V1.A:B]/') stores "[v1.a:b]" and prints "http://[v1.a:b]/", a fixed point (covered by
+    `AuthInputB`).  "NOT an IPv6 literal": "[0:0:0:0:0:0:0:1]" satisfies every other clause but is stored compressed,
+    "[::1]" (a `HostFix` host).  The excluded characters: '/' (likewise '?', '#') ends the authority and the
+    constructor raises; a second ']' ends the host early ("[a:]b]" is stored "[a:]"); TAB (likewise CR, LF) is removed
+    by `split_url`; '@' and '[' inside are the recorded members of F-C03-bracket above.
+    Cites C03_bracket_upper_case_lowered, C03_bracket_not_v6_needed, C03_bracket_chars_needed. -/
+theorem C03_headline_bracketed_conditions_needed :
+    let e : Env := ⟨.py, Oracles.empty⟩
+    (∃ u, encodeUrl e "http://[V1.A:B]/".toStr = .ok u ∧ u.netloc = "[v1.a:b]".toStr ∧
+      str e u = .ok "http://[v1.a:b]/".toStr ∧ encodeUrl e "http://[v1.a:b]/".toStr = .ok u ∧
+      BracketTextIn "V1.A:B".toStr ∧ ¬ BracketText "V1.A:B".toStr ∧ BracketText "v1.a:b".toStr) ∧
+    ((∀ c ∈ "0:0:0:0:0:0:0:1".toStr, textChar c = true) ∧ bracketCheck "0:0:0:0:0:0:0:1".toStr = true ∧
+      ¬ BracketText "0:0:0:0:0:0:0:1".toStr ∧
+      (encodeUrl e "http://[0:0:0:0:0:0:0:1]/".toStr).map (·.netloc) = .ok "[::1]".toStr) ∧
+    (encodeUrl e "http://[a:/b]/".toStr = .error .valueError ∧
+      encodeUrl e "http://[a:?b]/".toStr = .error .valueError ∧
+      encodeUrl e "http://[a:#b]/".toStr = .error .valueError ∧
+      (encodeUrl e "http://[a:]b]/".toStr).bind (str e) = .ok "http://[a:]/".toStr ∧
+      (encodeUrl e ("http://[a:".toStr ++ [9] ++ "b]/".toStr)).bind (str e) = .ok "http://[a:b]/".toStr) :=
+  ⟨C03_bracket_upper_case_lowered, C03_bracket_not_v6_needed, C03_bracket_chars_needed⟩
+
+/-- NOT covered (stays in GAPS 2): the bound "visible" (33 ≤ c) of `textChar` is not sharp — a SPACE inside the
+    brackets is outside `BracketText`, yet "http://[a: b]/" is a fixed point in the model and in the library; there is no
+    theorem for it.  Cites C03_bracket_space_not_covered. -/
+theorem C03_headline_bracketed_space_not_covered :
+    let e : Env := ⟨.py, Oracles.empty⟩
+    ¬ BracketText "a: b".toStr ∧
+    (encodeUrl e "http://[a: b]/".toStr).bind (str e) = .ok "http://[a: b]/".toStr :=
+  C03_bracket_space_not_covered
+
 /-! ### IDN hosts (GAPS 2 / 5, "IDNA") — under a stated ASSUMPTION about the `idna` package
 
   IDNA is an oracle of the model (the answers of the third-party `idna` package and of the stdlib codec are inputs).
@@ -497,10 +797,13 @@ GAPS:
     of `AuthInput`; discharged by `decide` per input; C03 has no theorem over GENERATED text, as C04 has with
     `composeUrl` / `canonText`);
     for the operation `joinRef` the side condition is still `NetlocCanon e ref` on the stored reference (a
-    reference that is itself `ReachV` is covered by `ReachV.join`); hosts outside `HostTextOK` (item 2).
+    reference that is itself `ReachV` is covered by `ReachV.join`); hosts outside `HostTextOK` (item 2: bracketed
+    non-IPv6 hosts have their own input-side theorems, C03_headline_bracketed_constructor_fixed_point /
+    _build_fixed_point / _op_sequence, with `AuthInputB` in place of `AuthInput`).
     The bracket side conditions of `AuthInput` are needed: C03_headline_valid_host_fails_for_bracketed_ipv4,
     C03_headline_valid_host_fails_for_bracket_in_host (further members of F-C03-bracket).
- 2. PARTLY CLOSED by C03_host_* / C03_hostFix_* / C03_encodeHost_hostFix(_validated) (C03Netloc.lean) and
+ 2. CLOSED for ASCII hosts (IDN: only under the assumption of item 8) by C03_host_* / C03_hostFix_* /
+    C03_encodeHost_hostFix(_validated) (C03Netloc.lean) and
     C03_idn_hostFix_answer (C03Idn.lean), see C03_headline_valid_host_text_spec, C03_headline_valid_host_kinds,
     C03_headline_stored_host_families, C03_headline_encode_host_valid.  Now covered, in ANY letter case on the
     input side: reg-names incl. those ending in a digit ("h1", "1.2.3.4.5") or in a dot, IPv4, IPv6 in any accepted
@@ -511,8 +814,35 @@ GAPS:
     C03_headline_idna_constructor_fixed_point) and for `with_host` (C03_headline_idna_with_host); for other shapes
     the reader must exhibit the stored authority (C03_headline_idna_valid_host).  There is NO theorem for
     `build(host=<IDN>)` (`BuildNetOK` asks an ASCII host) and IDN inputs are not entry points of `ReachV`.
-    STILL OPEN: IPvFuture / bracketed non-IPv6 text (C03_ipvfuture_fixed is a single example; such hosts are not
-    `HostTextOK`).
+    IPvFuture / bracketed non-IPv6 text — CLOSED by C03_bracket_fixed_point, C03_bracket_default_port,
+    C03_fixed_point_of_canonB, C03_bracket_identical_components, C03_bracket_constructor_fixed_point,
+    C03_bracket_build_fixed_point, C03_applyOp_netlocCanonB, C03_bracket_op_sequence_fixed_point, C03_bracket_families,
+    C03_bracket_hostFixB (C03Bracket.lean, Lemmas/BrHost.lean), see C03_headline_bracketed_host_text_spec,
+    C03_headline_bracketed_host_families, C03_headline_bracketed_host_fixed_point,
+    C03_headline_bracketed_host_default_port (+ …_default_port_examples),
+    C03_headline_fixed_point_valid_or_bracketed_host, C03_headline_bracketed_auth_input_spec,
+    C03_headline_bracketed_constructor_fixed_point, C03_headline_bracketed_build_fixed_point,
+    C03_headline_bracketed_op_sequence.  Such hosts are still not `HostTextOK` / `HostFix`; they have their own
+    vocabulary (`BracketTextIn` on the input side, any letter case; `BracketText` / `HostFixB` on the stored side;
+    `NetlocCanonB` = `NetlocCanon` or a bracketed authority; `AuthInputB`), and every fixed-point statement of this file
+    that takes `NetlocCanon e u` holds verbatim with `NetlocCanonB e u`, from the input text for the constructor and
+    `build(authority=)`, and through any sequence of the 19 operations.  DEVIATIONS the module reports:
+    (i) `[v1.a]:443` LOSES ITS BRACKETS when the default port is dropped: `str` rebuilds the authority from
+    `host_subcomponent`, which brackets a host only when it contains ':' — 'https://[v1.a]:443/' prints "https://v1.a/"
+    (a fixed point, `raw_host` kept, but the IPvFuture literal has silently become a reg-name; with a ':' inside,
+    "[v1.a:b]", the brackets stay); the same happens under with_user / with_password / with_port / origin
+    (C03_headline_bracketed_modifiers_drop_brackets).  Not in KNOWN_FINDINGS.
+    (ii) a FURTHER MEMBER of F-C03-bracket: the bracket check looks for a lower-case 'v' only but the host is lowered
+    afterwards, so URL('http://[V:b]/') prints "http://[v:b]/", which is REJECTED when read again
+    (C03_headline_bracketed_fails_for_upper_case_v); hence the clause `bracketCheck (lower T)` of `AuthInputB`
+    (automatic unless the text starts with 'V').  The other clauses are needed too: C03_headline_bracketed_conditions_needed.
+    STILL OPEN for this family: a SPACE inside the brackets ("[a: b]" is a fixed point in model and library but outside
+    `BracketText`: C03_headline_bracketed_space_not_covered); `ReachV` itself was not extended (the end-to-end statement
+    for bracketed hosts is C03_headline_bracketed_op_sequence: constructor + operations; for `build(authority=)` +
+    operations the reader composes the `NetlocCanonB` of C03_headline_bracketed_build_fixed_point, the preservation
+    clause of C03_headline_bracketed_op_sequence and C03_headline_fixed_point_valid_or_bracketed_host; a `join`
+    reference carries `NetlocCanonB` as a hypothesis on the stored reference, `UOp.NetArgsB`);
+    `build(host=…)` / `with_host` validate their argument and never yield such a host (nothing to prove).
  3. "identical … port" holds for `port` (effective port).  For `explicit_port` / the stored netloc / `==` it is
     FALSE when an explicit default port was written (C03_headline_identical_netloc_fails_for_default_port).  This
     is recorded as FINDING in C03.lean but is NOT in KNOWN_FINDINGS.jsonl.
@@ -526,7 +856,9 @@ GAPS:
     `u.scheme = lower a.scheme`), so "folded once, unchanged by the second pass" is part of
     C03_headline_constructor_fixed_point / _build_fixed_point; DEFAULT-PORT DROPPING — the stored netloc / `==`
     change in the second pass exactly when an explicit default port is stored
-    (C03_headline_equal_iff_no_default_port), and never after `build` (C03_headline_valid_host_build); IDNA — only
+    (C03_headline_equal_iff_no_default_port), and never after `build` (C03_headline_valid_host_build); for a bracketed
+    non-IPv6 host the dropped default port also drops the brackets of a host without ':' — the printed string is still
+    a fixed point (C03_headline_bracketed_host_default_port, item 2 (i)); IDNA — only
     under the assumption of item 8 and for the shapes of item 2 (C03_headline_idna_constructor_fixed_point: the
     second parse takes the ASCII path and does not reach IDNA).  UNCHANGED: dot-segment removal (C15 has
     normalizePath idempotence) and "decoding" (quoter level: cOut_requote_fixed in Lemmas/Canon.lean) are not
